@@ -25,23 +25,25 @@ Definition w_pending (w : world) (d : dest) : list sdentry :=
 
 Lemma lq_qlog d l : log_queued d (qlog l) = log_queued d l.
 Proof.
-  induction l as [|[t g] l IH]; [reflexivity|]. destruct g as [e d'|d' es|es d' f i|st a k ttl|st a k|ml].
+  induction l as [|[t g] l IH]; [reflexivity|]. destruct g as [e d'|d' es|es d' f i|st a k ttl|st a k|ml|dep].
   - change (log_queued d ((t, GQueue e d') :: qlog l) = log_queued d ((t, GQueue e d') :: l)). cbn [log_queued]. rewrite IH. reflexivity.
   - change (log_queued d ((t, GFlush d' es) :: qlog l) = log_queued d ((t, GFlush d' es) :: l)). cbn [log_queued]. rewrite IH. reflexivity.
   - change (log_queued d (qlog l) = log_queued d ((t, GSend es d' f i) :: l)). cbn [log_queued snd q_contrib]. rewrite app_nil_r. exact IH.
   - change (log_queued d (qlog l) = log_queued d ((t, GRefresh st a k ttl) :: l)). cbn [log_queued snd q_contrib]. rewrite app_nil_r. exact IH.
   - change (log_queued d (qlog l) = log_queued d ((t, GExpire st a k) :: l)). cbn [log_queued snd q_contrib]. rewrite app_nil_r. exact IH.
   - change (log_queued d (qlog l) = log_queued d ((t, GMulti ml) :: l)). cbn [log_queued snd q_contrib]. rewrite app_nil_r. exact IH.
+  - change (log_queued d (qlog l) = log_queued d ((t, GDupSub dep) :: l)). cbn [log_queued snd q_contrib]. rewrite app_nil_r. exact IH.
 Qed.
 Lemma lf_qlog d l : log_flushed d (qlog l) = log_flushed d l.
 Proof.
-  induction l as [|[t g] l IH]; [reflexivity|]. destruct g as [e d'|d' es|es d' f i|st a k ttl|st a k|ml].
+  induction l as [|[t g] l IH]; [reflexivity|]. destruct g as [e d'|d' es|es d' f i|st a k ttl|st a k|ml|dep].
   - change (log_flushed d ((t, GQueue e d') :: qlog l) = log_flushed d ((t, GQueue e d') :: l)). cbn [log_flushed]. rewrite IH. reflexivity.
   - change (log_flushed d ((t, GFlush d' es) :: qlog l) = log_flushed d ((t, GFlush d' es) :: l)). cbn [log_flushed]. rewrite IH. reflexivity.
   - change (log_flushed d (qlog l) = log_flushed d ((t, GSend es d' f i) :: l)). cbn [log_flushed snd f_contrib]. rewrite app_nil_r. exact IH.
   - change (log_flushed d (qlog l) = log_flushed d ((t, GRefresh st a k ttl) :: l)). cbn [log_flushed snd f_contrib]. rewrite app_nil_r. exact IH.
   - change (log_flushed d (qlog l) = log_flushed d ((t, GExpire st a k) :: l)). cbn [log_flushed snd f_contrib]. rewrite app_nil_r. exact IH.
   - change (log_flushed d (qlog l) = log_flushed d ((t, GMulti ml) :: l)). cbn [log_flushed snd f_contrib]. rewrite app_nil_r. exact IH.
+  - change (log_flushed d (qlog l) = log_flushed d ((t, GDupSub dep) :: l)). cbn [log_flushed snd f_contrib]. rewrite app_nil_r. exact IH.
 Qed.
 
 (* ------------------------------------------------------------------ the history invariant *)
